@@ -226,6 +226,8 @@ pub fn run_state_case<T: Sc>(out: Option<&mut Out>, c: &StateCase<T>, fault: Opt
         // must leave the original alone (the following steps of the original are compared as usual)
         if i == 0 && fault.is_none() && !c.built {
             if let Some(mut cl) = prob.try_clone() {
+                // the clone as it is (no parameter update): it IS the problem it was copied from (round 11)
+                emit_outputs(out, "twinClone", cl.as_ref());
                 let alt: Vec<T> = c.init.iter().map(|v| *v * T::of(1.0625)).collect();
                 let altv = DVector::from_vec(alt.clone());
                 if guarded(|| cl.set(&altv)).is_ok() {
